@@ -556,20 +556,19 @@ Definition sp_pattern (u : bool) (l : list N) : SR unit :=
 Definition recognises (u : bool) (l : list N) : bool := match sp_pattern u l with SOk _ _ => true | _ => false end.
 
 (* ---- the fragment ----
-   A left-to-right scan of the units, in the mode u:
+   A left-to-right scan of the units, in the mode u, outside and inside classes (a class runs from an unescaped `[` to
+   the next unescaped `]`):
      a backslash is followed by a unit x, which is skipped, where
-         with u: x is not one of k p P (named references and property escapes are outside the fragment),
-         if x is one of the digits 1-9, the value of the decimal digits that start at x is below 2^63;
-     every other unit is any unit but an opening bracket `[` (the simulation of the validator model does not cover
-         classes yet; the grammar and the recogniser do);
-     `(?<` is followed by `=` or `!` (a look-behind, not a named group);
-     where `{` starts a syntactically complete `{n}` `{n,}` `{n,m}`, the bounds are below 2^63 (the implementation
+         with u: x is not p or P (property escapes are outside the fragment), and outside a class not k (named references),
+         outside a class: if x is one of the digits 1-9, the value of the decimal digits that start at x is below 2^63;
+     outside a class:
+         `(?<` is followed by `=` or `!` (a look-behind, not a named group);
+         where `{` starts a syntactically complete `{n}` `{n,}` `{n,m}`, the bounds are below 2^63 (the implementation
          accumulates decimal numbers in saturating 64-bit arithmetic, the grammar compares the unbounded values). *)
-Definition plain_char (c : N) : bool := negb (c =? g_lbracket).
 Definition bound_limit : N := 9223372036854775808.
-Definition allowed_after_backslash (u : bool) (x : N) (r : list N) : bool :=
-  (if non_zero_digit x then dec_value (x :: fst (span_digits r)) <? bound_limit else true) &&
-  (if u then negb (existsb (N.eqb x) [107; 112; 80]) else true).
+Definition allowed_after_backslash (u cls : bool) (x : N) (r : list N) : bool :=
+  (if negb cls && non_zero_digit x then dec_value (x :: fst (span_digits r)) <? bound_limit else true) &&
+  (if u then negb (existsb (N.eqb x) [112; 80]) && (cls || negb (x =? 107)) else true).
 Definition braces_small (l : list N) : bool :=
   match sp_braced l with
   | Some (n, om, _) => (n <? bound_limit) && match om with Some m => m <? bound_limit | None => true end
@@ -585,16 +584,18 @@ Definition local_ok (c : N) (r : list N) : bool :=
       else true
   | _ => true
   end.
-(* esc = the previous unit was an (unescaped) backslash *)
-Fixpoint scan (u esc : bool) (l : list N) : bool :=
+(* cls = inside a class; esc = the previous unit was an (unescaped) backslash *)
+Fixpoint scan (u cls esc : bool) (l : list N) : bool :=
   match l with
   | [] => negb esc
   | c :: r =>
-      if esc then allowed_after_backslash u c r && scan u false r
-      else if c =? g_backslash then scan u true r
-      else plain_char c && local_ok c r && scan u false r
+      if esc then allowed_after_backslash u cls c r && scan u cls false r
+      else if c =? g_backslash then scan u cls true r
+      else if cls then scan u (negb (c =? g_rbracket)) false r
+      else if c =? g_lbracket then scan u true false r
+      else local_ok c r && scan u false false r
   end.
-Definition in_fragment (u : bool) (l : list N) : bool := scan u false l.
+Definition in_fragment (u : bool) (l : list N) : bool := scan u false false l.
 
 (* ---- the inputs on which the grammar of Grammar.v is the whole ES2022 grammar ----
    (where the recogniser is compared with V8; in_fragment above is the smaller set on which the validator model is
